@@ -1,6 +1,6 @@
 CONSTANTS
-  MaxReq = 3
-  Kinds <- AllKinds
+  MaxReq = 4
+  Kinds <- EnvCore
   GapKinds <- Gaps01
   UniformGaps = FALSE
   PipeCap = 2
@@ -10,4 +10,5 @@ CONSTANTS
   RespawnOnEpipe = TRUE
 CHECK_DEADLOCK FALSE
 SPECIFICATION Spec
-INVARIANTS OneReplyEach OwnReply Isolation NoStale GenPattern EmitCase
+VIEW View
+INVARIANTS TypeOK OneReplyEach OwnReply Isolation NoStale ViewSound
